@@ -55,7 +55,11 @@ def run(chk):
                           # history: same queries again, other order, no lou_free in between
                           "A+ %s" % lst, "A+ %s" % inc_main,
                           # the translation part compiled alone (another entry point into the same resolution)
-                          "E %s" % inc_main, "E %s" % lst]
+                          "E %s" % inc_main, "E %s" % lst,
+                          # what a name denotes must not depend on what was loaded before: after the list, its first member
+                          # alone and a name that exists nowhere (both are beginnings of the list string), then both fresh
+                          "A %s" % lst, "A+ %s" % (W + "/inc/main0.utb"), "A+ %s" % (W + "/inc/main0"),
+                          "A %s" % (W + "/inc/main0.utb"), "A %s" % (W + "/inc/main0")]
                 mlines = ["RS %s | %s | %s | %s" % (name, inc_main, envpath, REPO / "tables"),
                           "RS %s | - | %s | %s" % (lst, envpath, REPO / "tables")]
                 rc, out, err = common.sh([str(exe)], input="\n".join(clines) + "\n", env=dict(common.ASAN_ENV, **env), cwd=str(work / "cwd"))
@@ -64,10 +68,16 @@ def run(chk):
                 mo = mo.strip().split("\n")
                 case = dict(form=form, name=name, present=dict(zip(["including_dir", "as_given", "path1", "path2"], pattern)),
                             LOUIS_TABLEPATH=envpath, cwd=W + "/cwd")
-                if rc != 0 or len(co) != 8 or rc2 != 0 or len(mo) != 2:
+                if rc != 0 or len(co) != 13 or rc2 != 0 or len(mo) != 2:
                     chk.count(str(case))
                     chk.violation("crash", "resolver harness failed rc=%s/%s: %s %s" % (rc, rc2, common.asan_summary(err), err2[-300:]), case)
                     continue
+                norm = lambda a: a.strip().replace(" errors=0", " errors=1")
+                for what, after, fresh in (("the first member of a list loaded before", co[9], co[11]), ("a name that exists nowhere", co[10], co[12])):
+                    chk.tally("name_after_list")
+                    if norm(after) != norm(fresh):
+                        chk.violation("denotation-depends-on-history:%s" % form, "%s resolves differently after the list was loaded (%s) and in a fresh state (%s)"
+                                      % (what, after.strip(), fresh.strip()), dict(case, impl_after=after, impl_fresh=fresh, commands=clines[8:]))
                 for kind, ce, mp in (("include", co[6], mo[0]), ("list", co[7], mo[1])):
                     want = "E 0" if mp == "P FAIL" else "E 1"
                     if ce.strip() != want:
